@@ -13,7 +13,7 @@ RULE = ('Cases = generated scene (layered, split_candidate, merge_chain, exact_c
         'parameters (MSA placed among the hits so that cropping selects rows, look-back < 100, exclusion, separation) x '
         'a frame variant: index relabelled (shuffled labels, offset, float, string, non-unique per-instrument labels as '
         'pd.concat gives, all labels equal), columns permuted, 0-3 extra columns (constant, row-unique, named like the '
-        'internal slice_id / group_id / layer_id), dtype variants (ceilo object / str / StringDtype; dt and height as '
+        'internal slice_id / group_id / layer_id, or holding unhashable objects: lists, arrays, dicts), dtype variants (ceilo object / str / StringDtype; dt and height as '
         'int64 or float32 only when every value is exactly representable; type as int8 / Int64 / integer-valued float). '
         'Metamorphic oracle, bit-exact: the three tables, the three messages, the flag and the per-hit assignments '
         '(chunk.data compared positionally, index ignored) equal those of the plain RangeIndex frame with canonical '
@@ -43,7 +43,7 @@ def strategy_(draw):
         var['perm'] = list(draw(S.permutation(range(n))))
     var['cols'] = list(draw(S.permutation(['ceilo', 'dt', 'height', 'type'])))
     var['extra'] = draw(st.lists(st.sampled_from(['const', 'unique', 'slice_id', 'group_id', 'layer_id', 'index',
-                                                  'height_base']), max_size=3, unique=True))
+                                                  'height_base', 'lists', 'arrays', 'dicts']), max_size=3, unique=True))
     var['dtypes'] = {'ceilo': draw(st.sampled_from(['string', 'string', 'object', 'str'])),
                      'dt': draw(st.sampled_from(['float', 'float', 'int64', 'float32'])),
                      'height': draw(st.sampled_from(['float', 'float', 'int64', 'float32'])),
@@ -94,6 +94,12 @@ def make_variant(rows, var):
             df['extra_unique'] = np.arange(n)[::-1]
         elif ex == 'index':
             df['index'] = np.arange(n)
+        elif ex == 'lists':
+            df['flags'] = pd.Series([[i, 'ok'] for i in range(n)], dtype=object)
+        elif ex == 'arrays':
+            df['profile'] = pd.Series([np.arange(3) + i for i in range(n)], dtype=object)
+        elif ex == 'dicts':
+            df['meta'] = pd.Series([{'id': i} for i in range(n)], dtype=object)
         else:
             df[ex] = 7
         kinds.append('extra')
@@ -130,6 +136,19 @@ def make_variant(rows, var):
     return df, sorted(set(kinds))
 
 
+def _frames_equal(a, b):
+    if list(a.columns) != list(b.columns) or list(a.index) != list(b.index) or len(a) != len(b):
+        return False
+    for col in a.columns:
+        for x, y in zip(a[col].tolist(), b[col].tolist()):
+            if isinstance(x, np.ndarray) or isinstance(y, np.ndarray):
+                if not np.array_equal(x, y):
+                    return False
+            elif x != y and not (x != x and y != y):
+                return False
+    return True
+
+
 def check(case):
     res = Result()
     res.labels = [case['cls']]
@@ -139,7 +158,7 @@ def check(case):
         res.skipped = 'plain run crashed: ' + observe.crash_sig(exc)
         return res
     frame, kinds = make_variant(case['rows'], case['variant'])
-    before = frame.copy(deep=True)
+    before = copy.deepcopy(frame)
     res.evals = 2
     snap_a = observe.snapshot(a, index=False)
     try:
@@ -157,7 +176,7 @@ def check(case):
             relabelled = idx != 'no-index-change'
             res.fail('differs', f'result differs for an equivalent frame ({idx}' + ('' if relabelled else '; ' + oth) + ')',
                      f'{dd} variant={kinds}')
-    if not before.equals(frame) or list(before.index) != list(frame.index):
+    if not _frames_equal(before, frame):
         res.fail('caller', 'variant frame modified by the run', '')
     cropped = len(a.data) != len(case['rows']) or bool(a.clouds_above_msa_buffer) or \
         sum(1 for r in case['rows'] if r[2] is not None) != int(a.data['height'].notna().sum())
